@@ -138,12 +138,23 @@ def _cleanup(path, pid):
         shutil.rmtree(path, ignore_errors=True)
 
 
+def _sweep_stale(root):
+    """remove scratch dirs of runs that were killed (their owner pid, part of the name, no longer exists)"""
+    for name in os.listdir(root):
+        parts = name.split("-")
+        if len(parts) == 3 and parts[0] == "c08" and parts[1].isdigit() and not os.path.exists("/proc/%s" % parts[1]):
+            shutil.rmtree(os.path.join(root, name), ignore_errors=True)
+
+
 def scratch_dir():
     """one scratch dir per process (pool workers make their own; removed by the worker itself at exit or,
     for pool workers that are terminated, by the parent which owns the enclosing directory)"""
     if _scratch["dir"] is None or _scratch["pid"] != os.getpid():
-        parent = _scratch["dir"] if _scratch["dir"] and os.path.isdir(_scratch["dir"]) else env.scratch_root()
-        d = tempfile.mkdtemp(prefix="c08-", dir=parent)
+        nested = bool(_scratch["dir"] and os.path.isdir(_scratch["dir"]))
+        parent = _scratch["dir"] if nested else env.scratch_root()
+        if not nested:
+            _sweep_stale(parent)
+        d = tempfile.mkdtemp(prefix="c08-%d-" % os.getpid(), dir=parent)
         _scratch["dir"], _scratch["pid"], _scratch["n"] = d, os.getpid(), 0
         atexit.register(_cleanup, d, os.getpid())
     return _scratch["dir"]
